@@ -68,7 +68,7 @@ def run(scn, stats):
         n_before_pause = len(rp.history)
         rec = rp.step({"op": "req", "status": scn.get("pause_status", "pausing")})
         if rec["rejected"]:
-            raise Reject()
+            raise Violation("pause-request-rejected-on-running-workflow", dict(info, status=rec["before"], reason=rec.get("reject_msg"), history=common.history_summary(rp)))
         if W and rec["after"] != "pausing":
             raise Violation("not-pausing-with-actions-in-flight", dict(info, status=rec["after"], inflight=W, history=common.history_summary(rp)))
         if not W and rec["after"] != "paused":
@@ -106,6 +106,8 @@ def run(scn, stats):
         if status_at_rest in ("paused", "pausing"):
             rec = rp.step({"op": "req", "status": scn.get("resume_status", "resuming")})
             resumed = not rec["rejected"]
+            if rec["rejected"]:
+                raise Violation("resume-request-rejected", dict(info, status=rec["before"], reason=rec.get("reject_msg"), history=common.history_summary(rp)))
             resume_completed = rec["after"] in provider.TERMINAL
         n_after_resume = len(rp.history)
         r1 = rp.step({"op": "poll"})
